@@ -95,10 +95,14 @@ func (e *env) evalCall(f *FuncCall) (any, error) {
 		if err != nil {
 			return nil, err
 		}
-		if t {
-			return e.eval(f.Args[1])
+		taken, other := f.Args[1], f.Args[2]
+		if !t {
+			taken, other = other, taken
 		}
-		return e.eval(f.Args[2])
+		if err := e.staticCheck(other); err != nil {
+			return nil, err
+		}
+		return e.eval(taken)
 	case "multiIf":
 		if len(f.Args) < 3 || len(f.Args)%2 == 0 {
 			return nil, badArgf("multiIf takes an odd number (>= 3) of arguments")
@@ -113,7 +117,15 @@ func (e *env) evalCall(f *FuncCall) (any, error) {
 				return nil, err
 			}
 			if t {
+				for _, rest := range f.Args[i+2:] {
+					if err := e.staticCheck(rest); err != nil {
+						return nil, err
+					}
+				}
 				return e.eval(f.Args[i+1])
+			}
+			if err := e.staticCheck(f.Args[i+1]); err != nil {
+				return nil, err
 			}
 		}
 		return e.eval(f.Args[len(f.Args)-1])
@@ -179,6 +191,39 @@ func (e *env) evalCall(f *FuncCall) (any, error) {
 	return fn.fn(e, args)
 }
 
+// staticCheck evaluates an expression that short circuit evaluation skips, but
+// only while the sample row is processed and only to report the errors
+// ClickHouse finds at analysis time (types, unknown identifiers / functions).
+func (e *env) staticCheck(x Expr) error {
+	if !e.b.static {
+		return nil
+	}
+	if _, err := e.eval(x); err != nil && isStaticErr(err) {
+		return err
+	}
+	return nil
+}
+
+// staticCheckLogical additionally requires a numeric (or NULL) operand.
+func (e *env) staticCheckLogical(x Expr, fn string) error {
+	if !e.b.static {
+		return nil
+	}
+	v, err := e.eval(x)
+	if err != nil {
+		if isStaticErr(err) {
+			return err
+		}
+		return nil
+	}
+	if v != nil {
+		if _, ok := kindOf(v); !ok {
+			return typeErrf("illegal type %s of argument of function %s", typeNameOf(v), fn)
+		}
+	}
+	return nil
+}
+
 // evalAndOr implements three-valued logic with short circuit.
 func (e *env) evalAndOr(name string, args []Expr) (any, error) {
 	if len(args) < 2 {
@@ -186,7 +231,7 @@ func (e *env) evalAndOr(name string, args []Expr) (any, error) {
 	}
 	isAnd := name == "and"
 	sawNull := false
-	for _, a := range args {
+	for i, a := range args {
 		v, err := e.eval(a)
 		if err != nil {
 			return nil, err
@@ -199,11 +244,14 @@ func (e *env) evalAndOr(name string, args []Expr) (any, error) {
 			return nil, typeErrf("illegal type %s of argument of function %s", typeNameOf(v), name)
 		}
 		t, _ := truthy(v)
-		if isAnd && !t {
-			return uint8(0), nil
-		}
-		if !isAnd && t {
-			return uint8(1), nil
+		if (isAnd && !t) || (!isAnd && t) {
+			// short circuit; operand types are still checked statically
+			for _, rest := range args[i+1:] {
+				if err := e.staticCheckLogical(rest, name); err != nil {
+					return nil, err
+				}
+			}
+			return boolVal(!isAnd), nil
 		}
 	}
 	if sawNull {
